@@ -22,7 +22,8 @@ ID = "C10"
 LEVEL = "exploration"
 RULE = (
     "case = (shape: 1-3 sessions of 1-3 batches, all 39 shapes, plus 5 shapes with sessions of 0 batches; loss sequence: improving / non-improving / mixed / reaching exactly 0.0; "
-    "agent: constant, cyclic or reward-adaptive script, or the real MABEpsilonGreedy; 3 samplers + optional supplied Halton). "
+    "agent: constant, cyclic or reward-adaptive script, or the real MABEpsilonGreedy; 3 samplers + optional supplied Halton; in a "
+    "fifth of the scheduler-API cases one batch fails after its sampler was designated, so the session ends through session()'s finally). "
     "Controlled mode enumerates every schedule of the calibration thread and the agent threads at the synchronisation points "
     "(before and after every queue put, queue get/empty/qsize, session-flag read/write, thread start/join/exit) with at most c preemptions (quick c=2, "
     "thorough c=3, c=4 for shapes of at most 4 batches) and adds seeded random schedules without bound; free-running mode repeats cases on real threads with "
@@ -38,7 +39,7 @@ ASSUMPTIONS = [
     "the calibration side is driven through the scheduler API exactly as Calibrator.calibrate() does (session(), get_next_sampler(), update()) in two thirds of the cases and by a real Calibrator.calibrate() (scripted losses) in one third",
     "non-negative losses; once the best loss is exactly 0.0 no later batch can improve it, so the reward rule never divides by zero",
 ]
-REQUIRED_COUNTERS = {"cases_via_real_calibrator": 8, "schedules": 2000, "preempted_multi_session": 500, "cases": 30, "free_runs": 60, "free_line_events": 5000}
+REQUIRED_COUNTERS = {"cases_with_a_failing_batch": 3, "cases_via_real_calibrator": 8, "schedules": 2000, "preempted_multi_session": 500, "cases": 30, "free_runs": 60, "free_line_events": 5000}
 SHARDS = {"quick": 16, "thorough": 16}
 SHARD_WATCHDOG = {"quick": 1500, "thorough": 10800}
 
@@ -58,6 +59,11 @@ def gen_cases(tier, seed):
                           "halton_supplied": bool((k + r) % 3 == 0), "seed": seed, "k": k * 3 + r,
                           # every third case: the calibration side is a real Calibrator.calibrate() (seeding, sampling, simulation, loss)
                           "via": "calibrator" if (k + r) % 3 == 1 else "scheduler_api"})
+            if (k + r) % 3 != 1 and (k + r) % 5 == 2 and sum(sh) > 0:
+                # one batch fails after its sampler was designated (model / loss error): the session is torn down through session()'s finally
+                ss = [i for i, n in enumerate(sh) if n > 0]
+                s_f = ss[(k + r) % len(ss)]
+                cases[-1]["fail"] = [s_f, ((k + r) // 3) % sh[s_f]]
         k += 1
     nfree = 32 if tier == "quick" else 320
     for i in range(nfree):
@@ -212,19 +218,30 @@ def drive_calibrator(desc, sched, env, rec, losses, queues, alive_fn):
         rec("session_end", s, list(queues["act"]()), ["None" if x is None else "outcome" for x in queues["out"]()], alive_fn())
 
 
+class BatchFailed(Exception):
+    """The model or the loss raised inside a batch (after the scheduler had designated its sampler)."""
+
+
 def drive(desc, sched, env, rec, losses, queues, alive_fn):
     """What Calibrator.calibrate() does with a scheduler, for every session of the shape."""
     b = 0
+    fail = tuple(desc.get("fail") or ())
     for s, nb in enumerate(desc["shape"]):
         rec("session_start", s)
-        with sched.session():
-            for _ in range(nb):
-                smp = sched.get_next_sampler()
-                idx = [i for i, x in enumerate(sched.samplers) if x is smp]
-                rec("run", s, b, idx[0] if idx else None, type(smp).__name__)
-                sched.update(b, np.array([[0.5]]), np.array([losses[b]]), None)
-                rec("update", s, b, losses[b])
-                b += 1
+        try:
+            with sched.session():
+                for j in range(nb):
+                    smp = sched.get_next_sampler()
+                    idx = [i for i, x in enumerate(sched.samplers) if x is smp]
+                    rec("run", s, b, idx[0] if idx else None, type(smp).__name__)
+                    if fail == (s, j):
+                        raise BatchFailed(f"session {s} batch {j}")
+                    sched.update(b, np.array([[0.5]]), np.array([losses[b]]), None)
+                    rec("update", s, b, losses[b])
+                    b += 1
+        except BatchFailed:
+            rec("batch_failed", s, b)
+            b += 1
         rec("session_end", s, list(queues["act"]()), ["None" if x is None else "outcome" for x in queues["out"]()], alive_fn())
 
 
@@ -273,7 +290,8 @@ def judge(desc, log, losses, n_samplers_with_bootstrap, halton_index):
         executed = []   # (action, batch) for agent-chosen batches, in order
         for (b, idx) in p["runs"]:
             if first_ever:
-                first_ever = False
+                # the bootstrap sampler serves until a batch has completed (the scheduler has no best loss before that)
+                first_ever = b not in p["updates"]
                 if idx != halton_index:
                     bad.append(f"S3 session {s}: the first batch ever was produced by sampler {idx}, the bootstrap (Halton) sampler is {halton_index}")
                 executed.append((None, b))
@@ -410,6 +428,8 @@ def case_controlled(desc, ctx, out):
         c["random_schedules"] = c.get("random_schedules", 0) + 1
     c["schedules"] = c.get("schedules", 0) + nsched
     c["cases"] = c.get("cases", 0) + 1
+    if desc.get("fail"):
+        c["cases_with_a_failing_batch"] = c.get("cases_with_a_failing_batch", 0) + 1
     if desc.get("via") == "calibrator":
         c["cases_via_real_calibrator"] = c.get("cases_via_real_calibrator", 0) + 1
         c["schedules_via_real_calibrator"] = c.get("schedules_via_real_calibrator", 0) + nsched
